@@ -354,7 +354,7 @@ def run_check(prop, spec, tier, verif_seed, workers=None):
     params = dict(spec.get('params', {}))
     params.update(tp.get('params', {}))
     units = int(tp['units'])
-    wall_cap = float(tp.get('wall_cap', 600))
+    wall_cap = float(os.environ.get('TXSIM_WALL_CAP') or tp.get('wall_cap', 600))     # (override: a shorter pass over a tier)
     workers = workers or int(os.environ.get('TXSIM_WORKERS', '0')) or min(16, os.cpu_count() or 1)
     recheck_every = int(tp.get('recheck_every', 97))
     deadline = t0 + wall_cap
